@@ -67,3 +67,71 @@ func VerifFindMatch(parents map[dvid.VersionID][]dvid.VersionID, entries []Verif
 	}
 	return fv, ids[kv], true, nil
 }
+
+// VerifVersionedRead runs the version-resolution path that data reads really take — real storage
+// keys built by storage.DataContext, VersionedCtx.VersionedKeyValue (range reads) and
+// VersionedCtx.GetBestKeyVersion (point reads), both of which file the keys into a kvVersions map
+// via VersionFromKey and call the repo manager's findMatch — over a synthetic DAG that is
+// installed as the package's manager for the duration of the call.  Version ids may be arbitrary
+// (not in topological order), as after a push/pull remapping.
+func VerifVersionedRead(parents map[dvid.VersionID][]dvid.VersionID, entries []VerifEntry, v dvid.VersionID) (kvID uint64, kvFound bool, kvErr error, bestID uint64, bestFound bool, bestErr error) {
+	m := &repoManager{
+		repos:         make(map[dvid.UUID]*repoT),
+		versionToUUID: make(map[dvid.VersionID]dvid.UUID),
+		uuidToVersion: make(map[dvid.UUID]dvid.VersionID),
+	}
+	r := &repoT{dag: &dagT{nodes: make(map[dvid.VersionID]*nodeT)}}
+	add := func(ver dvid.VersionID) {
+		if _, ok := r.dag.nodes[ver]; ok {
+			return
+		}
+		uuid := dvid.UUID(fmt.Sprintf("%032x", uint32(ver)))
+		r.dag.nodes[ver] = &nodeT{uuid: uuid, version: ver}
+		m.versionToUUID[ver] = uuid
+		m.uuidToVersion[uuid] = ver
+		m.repos[uuid] = r
+	}
+	add(v)
+	for c, ps := range parents {
+		add(c)
+		for _, p := range ps {
+			add(p)
+		}
+	}
+	for c, ps := range parents {
+		r.dag.nodes[c].parents = append([]dvid.VersionID{}, ps...)
+	}
+	saved := manager
+	manager = m
+	defer func() { manager = saved }()
+
+	d := &Data{id: 77}
+	tk := storage.NewTKey(7, []byte("k"))
+	var kvs []*storage.KeyValue
+	var keys []storage.Key
+	ids := make(map[string]uint64)
+	for _, e := range entries {
+		ectx := storage.NewDataContext(d, e.V)
+		var k storage.Key
+		if e.Tombstone {
+			k = ectx.TombstoneKey(tk)
+		} else {
+			k = ectx.ConstructKey(tk)
+		}
+		ids[string(k)] = e.ID
+		kvs = append(kvs, &storage.KeyValue{K: k, V: []byte{1}})
+		keys = append(keys, k)
+	}
+	vctx := NewVersionedCtx(d, v)
+	kv, err := vctx.VersionedKeyValue(kvs)
+	kvErr = err
+	if err == nil && kv != nil {
+		kvFound, kvID = true, ids[string(kv.K)]
+	}
+	best, err := vctx.GetBestKeyVersion(keys)
+	bestErr = err
+	if err == nil && best != nil {
+		bestFound, bestID = true, ids[string(best)]
+	}
+	return
+}
